@@ -173,3 +173,107 @@ theorem gr_divide_and_round_q_last_inplace_rounds (r : RNSTool) (p : RnsPoly) (X
   · intro i j hi hj
     rw [gr_flatP_getD hsh (by omega) hj, hv i j hi hj, hX _ j (by omega) hj, hX i j (by omega) hj]
     exact divRoundLast_scalar (hq _ (by omega)).two_le (hq i (by omega)).two_le (hinv i hi).2
+
+/-! ### `mod_t_and_divide_q_last_ntt_inplace` -/
+
+abbrev gr_tdflt : NTTTables := RNSTool.modTAndDivideQLastNtt.dflt
+/-- what the abstract (i)NTT inputs of the generated function are instantiated with: the model's transforms with table `i` -/
+def gr_IT (tables : Array NTTTables) (i : Nat) (x : List Nat) : List Nat := (intt (tables.getD i gr_tdflt) x.toArray).toList
+def gr_NT (tables : Array NTTTables) (i : Nat) (x : List Nat) : List Nat := (ntt (tables.getD i gr_tdflt) x.toArray).toList
+
+theorem gr_mtdn_model (r : RNSTool) (tables : Array NTTTables) (p : RnsPoly)
+    (hq : ∀ i, i < r.baseQ.size → (r.baseQ.q i).WF) (hs : 1 ≤ r.baseQ.size) (ht : r.t.WF) (hinvt : r.invQLastModT < 2^64) (hp : gr_Shape r p)
+    (hI : (intt (tables.getD (r.baseQ.size - 1) gr_tdflt) (p.getD (r.baseQ.size - 1) #[])).size = r.n)
+    (hIw : ∀ x ∈ intt (tables.getD (r.baseQ.size - 1) gr_tdflt) (p.getD (r.baseQ.size - 1) #[]), x < 2^64) :
+    r.modTAndDivideQLastNtt tables p =
+      .ok (((List.range (r.baseQ.size - 1)).map (fun i =>
+          (gr_mtdnComp (r.baseQ.q i) (r.baseQ.q (r.baseQ.size - 1)).value (r.invQLastModQ.getD i default) (gr_NT tables i)
+            (gr_negList r.t r.invQLastModT (intt (tables.getD (r.baseQ.size - 1) gr_tdflt) (p.getD (r.baseQ.size - 1) #[])).toList)
+            (intt (tables.getD (r.baseQ.size - 1) gr_tdflt) (p.getD (r.baseQ.size - 1) #[])).toList (p.getD i #[]).toList).toArray)).toArray.push
+        (intt (tables.getD (r.baseQ.size - 1) gr_tdflt) (p.getD (r.baseQ.size - 1) #[]))) := by
+  have ht0 : 0 < r.t.value := by have := ht.two_le; omega
+  have ht61 := ht.lt
+  have hL := hq (r.baseQ.size - 1) (by omega)
+  unfold RNSTool.modTAndDivideQLastNtt
+  dsimp only
+  rw [show RNSTool.modTAndDivideQLastNtt.dflt = gr_tdflt from rfl]
+  generalize intt (tables.getD (r.baseQ.size - 1) gr_tdflt) (p.getD (r.baseQ.size - 1) #[]) = lastc at hI hIw ⊢
+  have h0 : mapM' lastc (fun x => do let y ← barrett64 x r.t; negateMod y r.t) = .ok (lastc.map (fun x => (r.t.value - x % r.t.value) % r.t.value)) := by
+    apply mapM'_ok
+    intro x hx
+    rw [barrett64_exact ht (hIw x hx), ok_bind]
+    exact negateMod_exact ht (Nat.mod_lt _ ht0).le
+  have hneg : (if r.invQLastModT ≠ 1 then mapM' (lastc.map (fun x => (r.t.value - x % r.t.value) % r.t.value)) (fun x => mulMod x r.invQLastModT r.t)
+        else pure (lastc.map (fun x => (r.t.value - x % r.t.value) % r.t.value))) = .ok (gr_negList r.t r.invQLastModT lastc.toList).toArray := by
+    unfold gr_negList
+    by_cases h1 : r.invQLastModT ≠ 1
+    · rw [if_pos h1, if_pos h1, mapM'_ok (g := fun x => (x * r.invQLastModT) % r.t.value)]
+      · congr 1; apply Array.ext'; simp
+      · intro x hx
+        obtain ⟨y, -, rfl⟩ := Array.mem_map.mp hx
+        have := Nat.mod_lt (r.t.value - y % r.t.value) ht0
+        exact mulMod_exact ht (by omega) hinvt
+    · rw [if_neg h1, if_neg h1]; show Except.ok _ = Except.ok _; congr 1; apply Array.ext'; simp
+  rw [h0, ok_bind, ite_bind_join, hneg, ok_bind]
+  have hnegw := gr_negList_lt r.t ht r.invQLastModT lastc.toList
+  rw [listMapM_ok (G := fun i => (gr_mtdnComp (r.baseQ.q i) (r.baseQ.q (r.baseQ.size - 1)).value (r.invQLastModQ.getD i default) (gr_NT tables i)
+            (gr_negList r.t r.invQLastModT lastc.toList) lastc.toList (p.getD i #[]).toList).toArray)]
+  · rfl
+  · intro i hi
+    rw [List.mem_range] at hi
+    have hb := hq i (by omega)
+    have hb0 : 0 < (r.baseQ.q i).value := by have := hb.two_le; omega
+    have hb61 := hb.lt
+    have hpi := hp.2 i (by omega)
+    rw [mapM'_ok (g := fun x => (x % (r.baseQ.q i).value * (r.baseQ.q (r.baseQ.size - 1)).value) % (r.baseQ.q i).value)
+        (by intro x hx
+            rw [barrett64_exact hb (hnegw x (by simpa using hx)), ok_bind]
+            have := Nat.mod_lt x hb0; have := hL.lt
+            exact mulMod_exact hb (by omega) (by omega)), ok_bind,
+      zipM'_ok (g := fun d c => d + c % (r.baseQ.q i).value)
+        (by intro j hj
+            rw [Array.size_map] at hj
+            have hd : ((gr_negList r.t r.invQLastModT lastc.toList).toArray.map
+                (fun x => (x % (r.baseQ.q i).value * (r.baseQ.q (r.baseQ.size - 1)).value) % (r.baseQ.q i).value)).getD j 0 < (r.baseQ.q i).value := by
+              apply getD_lt_of_forall _ hb0
+              intro x hx
+              obtain ⟨y, -, rfl⟩ := Array.mem_map.mp hx
+              exact Nat.mod_lt _ hb0
+            have hc : lastc.getD j 0 < 2^64 := getD_lt_of_forall hIw (by norm_num) j
+            rw [barrett64_exact hb hc, ok_bind]
+            have := Nat.mod_lt (lastc.getD j 0) hb0
+            exact gr_ckAdd_ok (by omega)), ok_bind,
+      zipM'_ok (g := fun x y => subModV x y (r.baseQ.q i)) (fun _ _ => rfl), ok_bind,
+      mapM'_ok (g := fun x => mulOpV x (r.invQLastModQ.getD i default) (r.baseQ.q i)) (fun x _ => gr_mulOperandMod _ _ _)]
+    congr 1
+    unfold gr_mtdnComp gr_NT
+    apply Array.ext'
+    simp only [List.map_toArray, List.range_eq_range', Array.length_toList, gr_arr_getD, List.size_toArray, gr_negList_length, hI, hpi, List.length_map]
+
+/-- **`RNSTool::mod_t_and_divide_q_last_ntt_inplace` (generated from src/util/rns.rs) = the hand model**, with the two abstract function
+    inputs of the generated code (`polymod::intt`, `polymod::ntt` on table `i`) instantiated by the model's `intt` / `ntt` with `tables[i]`.
+    Hypotheses: WF primes and plain modulus, `inv_q_last_mod_t` a word, shape, buffer length fits a `usize`, `s-1` inverses, and about the
+    transforms only that they keep the length `n` and that the inverse transform of the last component consists of words. -/
+theorem gr_mod_t_and_divide_q_last_ntt_inplace_eq (r : RNSTool) (tables : Array NTTTables) (p : RnsPoly)
+    (hs : 1 ≤ r.baseQ.size) (hq : ∀ i, i < r.baseQ.size → (r.baseQ.q i).WF) (ht : r.t.WF) (hinvt : r.invQLastModT < 2^64)
+    (hinv : r.baseQ.size - 1 ≤ r.invQLastModQ.size) (hsn : r.baseQ.size * r.n < 2^64) (hs64 : r.baseQ.size < 2^64) (hp : gr_Shape r p)
+    (hI : (intt (tables.getD (r.baseQ.size - 1) gr_tdflt) (p.getD (r.baseQ.size - 1) #[])).size = r.n)
+    (hIw : ∀ x ∈ intt (tables.getD (r.baseQ.size - 1) gr_tdflt) (p.getD (r.baseQ.size - 1) #[]), x < 2^64)
+    (hN : ∀ i (a : Array Nat), i < r.baseQ.size - 1 → a.size = r.n → (ntt (tables.getD i gr_tdflt) a).size = r.n) :
+    GenR.mod_t_and_divide_q_last_ntt_inplace (flatP p) r.baseQ.size r.baseQ.base.toList r.n r.invQLastModQ.toList r.t r.invQLastModT
+        (fun i x => .ok (gr_IT tables i x)) (fun i x => .ok (gr_NT tables i x))
+      = (r.modTAndDivideQLastNtt tables p).map flatP := by
+  obtain ⟨hcs, hn⟩ := gr_shape_cs hp
+  have hlast : gr_IT tables (r.baseQ.size - 1) ((p.toList.map Array.toList).getD (r.baseQ.size - 1) [])
+      = (intt (tables.getD (r.baseQ.size - 1) gr_tdflt) (p.getD (r.baseQ.size - 1) #[])).toList := by
+    unfold gr_IT; rw [gr_cs_getD]
+  unfold flatP
+  rw [gr_mtdn_list r.baseQ.base.toList r.invQLastModQ.toList r.t r.invQLastModT r.baseQ.size r.n (gr_IT tables) (gr_NT tables) _ hs (by simp [RNSBase.size])
+    (by simpa using hinv) (by intro i hi; rw [gr_q_toList]; exact hq i hi) ht hinvt hsn hs64 hcs hn
+    (by rw [hlast, Array.length_toList]; exact hI) (by rw [hlast]; intro x hx; exact hIw x (by simpa using hx))
+    (by intro i x hi hx; unfold gr_NT; rw [Array.length_toList]; exact hN i _ hi (by simpa using hx)),
+    gr_mtdn_model r tables p hq hs ht hinvt hp hI hIw, hlast]
+  simp only [gr_q_toList, gr_cs_getD, gr_ops_toList]
+  show Except.ok _ = Except.ok _
+  congr 1
+  simp [List.range_eq_range', List.map_map, Function.comp_def]
